@@ -118,6 +118,16 @@ CLAIMS = {
         "Trusted: rustc / driver / engine (symeval, ordering abstraction); chrono comparison is a total order; all nodes read the same clock (stated in the property).",
         "static analysis: symbolic evaluation of closures + exhaustive ordering abstraction; MIR edge dominance; guard-span liveness; constant comparison",
         "DESIGN.md §3 C08"),
+    "C10": (
+        "The property's mechanism is one clause and it is decided: R1 a guard of metrics_table_query_lock must be live when with_metrics_table runs the "
+        "operation (KNOWN FINDING: the lock is released first, by design - concurrent queries can be planned against each other's chunk set). Around it: R2 the "
+        "deregister/register sequence runs only under that lock (guard-span at the call and its polls), session-catalog mutation only in the registration "
+        "functions, the 'already registered' short-cut returns only on equality with this call's path set; R3 the operation runs only on the success edge of a "
+        "registration of the caller's own chunk list, every statement execution site lies inside a closure handed to with_metrics_table, and the list handed "
+        "in comes from this query's catalog selection. Nothing else of C10 is static.",
+        "Trusted: rustc / driver / engine; tokio::sync::Mutex guard semantics; DataFusion resolves table names at planning time.",
+        "static analysis: guard-span liveness (must), MIR edge dominance, call-graph who-may-call with closure containment",
+        "DESIGN.md §3 C10"),
 }
 
 NOT_YET = "rule set under construction in this round; see DESIGN.md §3 for the planned static rules"
